@@ -227,11 +227,24 @@ def run(repo, res):
                     'supp/assistant.py', 0)
 
     # ---- R3 sibling agreement ------------------------------------------------------------------------
-    tree = repo.tree(PROJECT)
+    def defining_tree(name):
+        """The module of supp that assigns the module-level `name` project.py uses: project.py itself, or the module it imports
+        the name from."""
+        t = repo.tree(PROJECT)
+        if any(isinstance(n, ast.Assign) and unparse(n.targets[0]) == name for n in ast.walk(t)):
+            return t
+        for st in t.body:
+            if isinstance(st, ast.ImportFrom) and st.level >= 1 and any((a.asname or a.name) == name for a in st.names):
+                rel = 'supp/%s.py' % (st.module or '').split('.')[-1]
+                if rel in repo.trees:
+                    return repo.tree(rel)
+        return t
+    tree = defining_tree('SUFFIXES')
     suf = [n for n in ast.walk(tree) if isinstance(n, ast.Assign) and unparse(n.targets[0]) == 'SUFFIXES']
     ok = any('all_suffixes()' in unparse(n.value) for n in suf)
     res.check('C07-R3', 'SUFFIXES from importlib', ok, PROJECT, suf[0].lineno if suf else 0,
               'SUFFIXES must come from importlib.machinery.all_suffixes() (the suffixes importlib itself uses)')
+    tree = defining_tree('SOURCE_SUFFIXES')
     ss = [n for n in ast.walk(tree) if isinstance(n, ast.Assign) and unparse(n.targets[0]) == 'SOURCE_SUFFIXES']
     ok = bool(ss) and isinstance(ss[0].value, (ast.Tuple, ast.List)) and \
         all(isinstance(e, ast.Constant) and e.value in ('.py',) for e in ss[0].value.elts)
